@@ -210,11 +210,56 @@ func (p *Program) goSites(prefix string) []GoSite {
 	for _, fn := range p.RepoFuncs(prefix) {
 		allInstrs(fn, func(ins ssa.Instruction) {
 			if g, ok := ins.(*ssa.Go); ok {
-				out = append(out, GoSite{In: fn, Go: g, Target: staticCallee(g.Common())})
+				if t := staticCallee(g.Common()); t != nil {
+					out = append(out, GoSite{In: fn, Go: g, Target: peelThinWrapper(t)})
+					return
+				}
+				// a function value: the targets the call graph resolves (closures handed in
+				// by the callers), each looked through when it only forwards to one function
+				ts := p.calleesAt(g)
+				sort.Slice(ts, func(i, j int) bool { return fnName(ts[i]) < fnName(ts[j]) })
+				seen := map[*ssa.Function]bool{}
+				for _, t := range ts {
+					t = peelThinWrapper(t)
+					if t != nil && !seen[t] {
+						seen[t] = true
+						out = append(out, GoSite{In: fn, Go: g, Target: t})
+					}
+				}
+				if len(ts) == 0 {
+					out = append(out, GoSite{In: fn, Go: g})
+				}
 			}
 		})
 	}
 	return out
+}
+
+// peelThinWrapper: a function whose whole body is one call of a repository function followed by
+// return (a closure adapting a signature) stands for that function.
+func peelThinWrapper(f *ssa.Function) *ssa.Function {
+	for d := 0; d < 3 && f != nil; d++ {
+		if len(f.Blocks) != 1 {
+			return f
+		}
+		var only *ssa.Function
+		n := 0
+		for _, ins := range f.Blocks[0].Instrs {
+			switch x := ins.(type) {
+			case *ssa.Call:
+				n++
+				only = staticCallee(x.Common())
+			case *ssa.Return, *ssa.DebugRef, *ssa.UnOp, *ssa.FieldAddr, *ssa.MakeInterface, *ssa.ChangeInterface, *ssa.ChangeType:
+			default:
+				return f
+			}
+		}
+		if n != 1 || only == nil || only.Blocks == nil || !inRepo(only) {
+			return f
+		}
+		f = only
+	}
+	return f
 }
 
 // repoReach returns the repository functions reachable from the given functions following
